@@ -348,14 +348,15 @@ func (i InfixExpression) PrettyPrint(out *PrintState) *PrintState {
 		out.Print("(")
 	}
 	i.Left.PrettyPrint(out)
-	if out.Compact {
+	switch {
+	case out.Compact:
 		out.Print(i.Literal())
-	} else {
+	case i.Right == nil: // open ended range a[n:], nothing follows the colon.
+		out.Print(" ", i.Literal())
+	default:
 		out.Print(" ", i.Literal(), " ")
 	}
-	if i.Right == nil {
-		out.Print("nil")
-	} else {
+	if i.Right != nil {
 		i.Right.PrettyPrint(out)
 	}
 	if needParen {
